@@ -82,14 +82,16 @@ pub struct StreamCase {
     pub payload: Payload,
     pub ops: Vec<Op>,
     pub extra_polls: usize,
+    /// present a brand-new (non-equivalent) waker on every poll instead of the same one
+    pub fresh_wakers: bool,
 }
 
 impl StreamCase {
     pub fn raw(chunk: usize, ops: Vec<Op>) -> StreamCase {
-        StreamCase { method: "GET".into(), accept_encoding: None, chunk, gzip_level: None, via_parts: false, payload: Payload::Hash, ops, extra_polls: 2 }
+        StreamCase { method: "GET".into(), accept_encoding: None, chunk, gzip_level: None, via_parts: false, payload: Payload::Hash, ops, extra_polls: 2, fresh_wakers: false }
     }
     pub fn gzip(chunk: usize, level: u32, ops: Vec<Op>) -> StreamCase {
-        StreamCase { method: "GET".into(), accept_encoding: Some(b"gzip".to_vec()), chunk, gzip_level: Some(level), via_parts: false, payload: Payload::Hash, ops, extra_polls: 2 }
+        StreamCase { method: "GET".into(), accept_encoding: Some(b"gzip".to_vec()), chunk, gzip_level: Some(level), via_parts: false, payload: Payload::Hash, ops, extra_polls: 2, fresh_wakers: false }
     }
     pub fn to_json(&self) -> Value {
         json!({
@@ -101,6 +103,7 @@ impl StreamCase {
             "payload": match self.payload { Payload::Hash => "hash", Payload::Zeros => "zeros", Payload::Text => "text" },
             "ops": self.ops.iter().map(|o| o.to_json()).collect::<Vec<_>>(),
             "extra_polls": self.extra_polls,
+            "fresh_wakers": self.fresh_wakers,
         })
     }
     pub fn from_json(v: &Value) -> StreamCase {
@@ -120,6 +123,7 @@ impl StreamCase {
             },
             ops: v["ops"].as_array().map(|a| a.iter().map(Op::from_json).collect()).unwrap_or_default(),
             extra_polls: v["extra_polls"].as_u64().unwrap_or(2) as usize,
+            fresh_wakers: v["fresh_wakers"].as_bool().unwrap_or(false),
         }
     }
 }
@@ -181,6 +185,11 @@ pub struct StreamObs {
     pub delivered: Vec<u8>,
     pub build_panic: Option<String>,
     pub wakes: u64,
+    /// a poll returned something other than Pending although the waker registered by the
+    /// preceding Pending poll had not been woken since (the task would still be asleep)
+    pub lost_wake: Option<String>,
+    /// polls that returned Pending and were later followed by a non-Pending poll
+    pub park_wake_pairs: u64,
     pub empty_frames: u64,
     /// the harness's own poll budget ran out: nothing may be concluded from this run
     pub poll_limit_hit: bool,
@@ -223,6 +232,7 @@ impl StreamObs {
             "steps": steps,
             "accepted_total": self.accepted.len(),
             "delivered_total": self.delivered.len(),
+            "lost_wake": self.lost_wake,
         })
     }
 }
@@ -251,7 +261,7 @@ pub fn run_stream(case: &StreamCase) -> Option<StreamObs> {
         Ok(Some(b)) => b,
         Ok(None) => return None,
         Err(p) => {
-            return Some(StreamObs { status: 0, hdrs: vec![], writer_returned: false, steps: vec![], accepted: vec![], delivered: vec![], build_panic: Some(p), wakes: 0, empty_frames: 0, poll_limit_hit: false })
+            return Some(StreamObs { status: 0, hdrs: vec![], writer_returned: false, steps: vec![], accepted: vec![], delivered: vec![], build_panic: Some(p), wakes: 0, lost_wake: None, park_wake_pairs: 0, empty_frames: 0, poll_limit_hit: false })
         }
     };
     let (resp, writer) = built;
@@ -265,6 +275,8 @@ pub fn run_stream(case: &StreamCase) -> Option<StreamObs> {
         delivered: Vec::new(),
         build_panic: None,
         wakes: 0,
+        lost_wake: None,
+        park_wake_pairs: 0,
         empty_frames: 0,
         poll_limit_hit: false,
     };
@@ -276,6 +288,8 @@ pub fn run_stream(case: &StreamCase) -> Option<StreamObs> {
     let mut terminal_seen = false;
     let mut poll_limit_hit = false;
     let mut extra_left = case.extra_polls;
+    // the waker of the most recent poll, if that poll returned Pending, and its wake count then
+    let mut parked: Option<(Arc<CountWaker>, u64)> = None;
     let mut ops = case.ops.clone();
     if !ops.contains(&Op::DropWriter) {
         ops.push(Op::DropWriter);
@@ -341,7 +355,28 @@ pub fn run_stream(case: &StreamCase) -> Option<StreamObs> {
                             let h = b.size_hint();
                             let is_end = b.is_end_stream();
                             let before = obs.delivered.len() as u64;
-                            let (ev, data) = poll_once(b, &mut cx);
+                            let (ev, data, used) = if case.fresh_wakers {
+                                // a different Arc: `will_wake` is false against every earlier waker
+                                let a = Arc::new(CountWaker(AtomicU64::new(0)));
+                                let w = Waker::from(a.clone());
+                                let (ev, data) = poll_once(b, &mut Context::from_waker(&w));
+                                (ev, data, a)
+                            } else {
+                                let (ev, data) = poll_once(b, &mut cx);
+                                (ev, data, cw.clone())
+                            };
+                            if let Some((w, n0)) = parked.take() {
+                                if !matches!(ev, Ev::Pending | Ev::Panic(_)) {
+                                    obs.park_wake_pairs += 1;
+                                    if w.0.load(std::sync::atomic::Ordering::SeqCst) == n0 && obs.lost_wake.is_none() {
+                                        obs.lost_wake = Some(format!("step {}: poll returns {:?} although the waker registered by the previous (Pending) poll was never woken", obs.steps.len(), ev));
+                                    }
+                                }
+                            }
+                            if matches!(ev, Ev::Pending) {
+                                let n0 = used.0.load(std::sync::atomic::Ordering::SeqCst);
+                                parked = Some((used, n0));
+                            }
                             if let Some(d) = data {
                                 if d.is_empty() {
                                     obs.empty_frames += 1;
